@@ -15,6 +15,7 @@ import (
 	"github.com/hujm2023/go-sms-protocol/smpp/smpp34"
 
 	"verif/sim/core"
+	"verif/sim/spec"
 )
 
 // receipts — C18. The SMSC stub answers every submitted message with a submit
@@ -77,6 +78,22 @@ func genRcptValue(c *core.Chooser, key string) string {
 	}
 	const alpha = "ABCDEFGHIJKLMNOPQRSTUVWXYZabcdefghijklmnopqrstuvwxyz0123456789-_./+"
 	var v string
+	if c.Prob(1, 8) {
+		// a word the specifications define, in another letter case or with a look-alike letter: the value is still
+		// "the characters between the colon and the next space"
+		w := spec.StateWords[c.Intn(len(spec.StateWords))]
+		switch c.Intn(5) {
+		case 1:
+			w = strings.ToLower(w)
+		case 2:
+			w = w[:1] + strings.ToLower(w[1:])
+		case 3:
+			w = strings.Replace(w, "K", "\u212a", 1)
+		case 4:
+			w = strings.ToLower(w[:len(w)-1]) + w[len(w)-1:]
+		}
+		return w
+	}
 	switch c.Pick(5, 2, 2, 2) {
 	case 0:
 		b := c.Blob(n, "any")
@@ -269,7 +286,14 @@ func runReceipts(r *core.Run) {
 			}
 			usedID[fmt.Sprint(id)] = true
 			m.idKey = fmt.Sprint(id)
-			body := &cmpp.SubPduDeliveryContent{MsgID: id, Stat: string(c.Blob(c.Size(7, 7), "print")), SubmitTime: string(c.Blob(c.Size(10, 10), "digits")),
+			stat := string(c.Blob(c.Size(7, 7), "print"))
+			if c.Prob(1, 4) {
+				stat = genRcptValue(c, "stat") // among them the state words in other letter cases
+				if len(stat) > 7 {
+					stat = stat[:7]
+				}
+			}
+			body := &cmpp.SubPduDeliveryContent{MsgID: id, Stat: stat, SubmitTime: string(c.Blob(c.Size(10, 10), "digits")),
 				DoneTime: string(c.Blob(c.Size(10, 10), "digits")), DestTerminalID: string(c.Blob(c.Size(21, 11, 13, 21), "digits")), SMSCSequence: uint32(c.Uint64())}
 			m.cmppBody = body
 			var bb []byte
